@@ -211,6 +211,7 @@ package dig
 //@   let dflt = as(c, ptr(Scope)).invokerFn == defaultInvoker
 //@   ensures[C02:a-constructor-being-built-is-not-entered-again,C05:a-constructor-being-built-is-not-entered-again] !old(n.called) && old(n.onStack) ==> err != nil && chainHasCycle(err) && unchangedAll()
 //@        && $nrun == old($nrun) && $ncb == old($ncb) && $ev == old($ev)
+//@   ensures[C02:the-marker-is-set-while-the-arguments-are-built,C05:the-marker-is-set-while-the-arguments-are-built] reached(BuildList_1) ==> at(BuildList_1, n.onStack)
 //@   ensures[C02:noop-when-called] old(n.called) ==> err == nil && unchangedAll() && $nrun == old($nrun) && $ncb == old($ncb) && $ev == old($ev)
 //@   ensures[C02:success-means-called] err == nil ==> n.called
 //@   ensures[C07:called-only-on-success] reached(BuildList_1) && err != nil ==> n.called == at(BuildList_1, n.called)
@@ -253,6 +254,7 @@ package dig
 //@   allocates
 //@   maypanic
 //@   let dflt = as(s, ptr(Scope)).invokerFn == defaultInvoker
+//@   ensures[C02:the-decorator-is-marked-while-its-arguments-are-built,C12:the-decorator-is-marked-while-its-arguments-are-built] reached(BuildList_1) ==> at(BuildList_1, n.state == decoratorOnStack)
 //@   ensures[C02:dec-noop-when-called] old(n.state) == decoratorCalled ==> err == nil && unchangedAll() && $nrun == old($nrun) && $ncb == old($ncb) && $ev == old($ev)
 //@   ensures[C02:dec-success-means-called] err == nil ==> n.state == decoratorCalled
 //@   ensures[C07:dec-fail-resets-state,C12:dec-fail-resets-state,C02:dec-fail-resets-state] err != nil ==> n.state == decoratorReady
